@@ -101,3 +101,46 @@ func zzC34ServerKeyShareOfAnyLength() {
 		verifAssert(len(zzAlerts) > 0, "refusal-sends-an-alert")
 	}
 }
+
+//verif:harness C34 ech_inner_hello_hostile unwind=600 paths=400000 wall=1200
+//verif:expect decoded refused
+//verif:doc decodeInnerClientHello (the server's reconstruction of the inner ClientHello from a decrypted ECH payload, fully attacker-controlled) against a fixed valid outer hello: a well-formed fixed part (version, random, empty session id, one suite, null compression) followed by an extension block (optionally starting with the two extensions a valid inner hello needs) of every length 0..9 (quick) / 0..12 (thorough) with arbitrary bytes - which includes ech_outer_extensions (0xfd00) lists referring to arbitrary, repeated, missing or forbidden outer extensions - and 0..2 arbitrary trailing padding bytes: the function returns a message or an error and never panics; a decoded inner hello offers TLS 1.3 only and is marked as inner.
+func zzC34ECHInnerHelloHostile() {
+	outerRaw := zzCaptureHello("public.example", zzTLV(10, zzVec16([]byte{0, 29})), zzTLV(13, zzVec16([]byte{4, 3})), zzTLV(43, zzVec8([]byte{3, 4})),
+		zzTLV(51, zzVec16(zzCat([]byte{0, 29}, zzVec16(make([]byte, 32))))), zzTLV(0xfe0d, zzCat([]byte{0, 0, 1, 0, 1, 7}, zzVec16(make([]byte, 32)), zzVec16(make([]byte, 48)))))
+	outer := &clientHelloMsg{}
+	if !outer.unmarshal(outerRaw) {
+		verifFail("outer-unmarshals", "")
+		return
+	}
+	max := 10
+	if verifThorough() {
+		max = 13
+	}
+	n := verifChoice("ext-block-len", max)
+	var eb []byte
+	if n > 0 {
+		eb = verifBytes("ext-block", n)
+	}
+	var pad []byte
+	if k := verifChoice("padding-len", 3); k > 0 {
+		pad = verifBytes("padding", k)
+	}
+	if verifBool("valid-inner-extensions-first") {
+		// inner ECH marker and supported_versions {1.3}, then the arbitrary block
+		eb = zzCat(zzTLV(0xfe0d, []byte{1}), zzTLV(43, zzVec8([]byte{3, 4})), eb)
+	}
+	encoded := zzCat([]byte{3, 3}, make([]byte, 32), []byte{0}, zzVec16([]byte{0x13, 0x01}), []byte{1, 0}, zzVec16(eb), pad)
+	inner, err := decodeInnerClientHello(outer, encoded)
+	if err != nil {
+		verifReach("refused")
+		verifAssert(inner == nil, "no-message-with-error")
+		return
+	}
+	verifReach("decoded")
+	verifAssert(inner != nil && len(inner.supportedVersions) == 1 && inner.supportedVersions[0] == VersionTLS13, "inner-offers-tls13-only")
+	verifAssert(len(inner.encryptedClientHello) == 1 && inner.encryptedClientHello[0] == 1, "marked-inner")
+	for _, p := range pad {
+		verifAssert(p == 0, "padding-was-zero")
+	}
+}
